@@ -4,6 +4,7 @@ import RasnModel.Driver.C07
 import RasnModel.Driver.C14
 import RasnModel.Driver.C15
 import RasnModel.Driver.C16
+import RasnModel.Driver.C17
 import RasnModel.Driver.Struct
 /- Line-protocol driver: one request per line, one canonical answer per line. -/
 
@@ -15,6 +16,8 @@ def dispatch (line : String) : String :=
   | some (.atom "c14" :: args) => Driver.C14.handle args
   | some (.atom "c15" :: args) => Driver.C15.handle args
   | some (.atom "c16" :: args) => Driver.C16.handle args
+  | some (.atom "c17slice" :: args) => Driver.C17.handleSlice args
+  | some (.atom "c17report" :: args) => Driver.C17.handleReport args
   | some (.atom "struct" :: args) => Driver.Struct.handle args
   | some (.atom "recgraph" :: args) => Driver.Struct.handleRec args
   | some (.atom "ping" :: _) => "pong"
